@@ -145,13 +145,18 @@ def shadow_history():
         return {"name": name, "kind": kind, "module": module, "const": const, "default": None, "kwdefault": None, "setconst": None, "tupconst": None,
                 "sset": None, "pair": None, "nested": 2, "explicit": None, "hidden": None, "shadow": shadow, "refs": [list(r) for r in refs]}
 
-    def mk(g0, g1):
-        return {"pkg": "vpk", "nodes": [{"name": "G0", "kind": "v", "module": "a", "vkind": "int", "value": g0},
+    def mk(g0, g1, pair=(101, 102), hpair=(111, 112)):
+        spec = {"pkg": "vpk", "nodes": [{"name": "G0", "kind": "v", "module": "a", "vkind": "int", "value": g0},
                                         {"name": "G1", "kind": "v", "module": "a", "vkind": "int", "value": g1},
                                         fn("h0", "p", "a", 4, [("G1", "bare")], shadow="G1"),
                                         fn("m0", "m", "a", 10, [("G0", "bare")], shadow="G0"),
                                         fn("m1", "m", "a", 20, [("h0", "bare")])]}
-    return [mk(1, 2), mk(5, 2), mk(5, 7)], ["initial", "value of variable G0 (also the name of a lambda parameter in m0)", "value of variable G1 (also the name of a lambda parameter in h0)"]
+        vprog.node(spec, "m1")["pair"] = list(pair)
+        vprog.node(spec, "h0")["pair"] = list(hpair)
+        return spec
+    return ([mk(1, 2), mk(5, 2), mk(5, 7), mk(5, 7, pair=(102, 101)), mk(5, 7, pair=(102, 101), hpair=(112, 111))],
+            ["initial", "value of variable G0 (also the name of a lambda parameter in m0)", "value of variable G1 (also the name of a lambda parameter in h0)",
+             "swapped constants of m1", "swapped constants of h0"])
 
 
 def calls_of(spec):
